@@ -915,8 +915,8 @@ func (s *SSEServer) processRequestAsync(ctx context.Context, request *JSONRPCReq
 		select {
 		case session.eventQueue <- event:
 			// Successfully queued
-		default:
-			s.logger.Errorf("Failed to queue error response: event queue full for session %s", session.sessionID)
+		case <-session.done:
+			s.logger.Debugf("Session closed, cannot send error response: %s", session.sessionID)
 		}
 		return
 	}
@@ -1084,8 +1084,6 @@ func (s *SSEServer) handleRequestError(err error, requestID interface{}, session
 		// Error response queued successfully.
 	case <-session.done:
 		s.logger.Debugf("Session closed, cannot send error response: %s", session.sessionID)
-	default:
-		s.logger.Errorf("Failed to queue error response: event queue full for session %s", session.sessionID)
 	}
 }
 
@@ -1101,7 +1099,7 @@ func (s *SSEServer) sendSuccessResponse(requestID interface{}, result interface{
 	// Serialize full response.
 	fullResponseData, err := json.Marshal(response)
 	if err != nil {
-		s.logger.Errorf("Error encoding full response: %v", err)
+		s.handleRequestError(fmt.Errorf("failed to encode response: %w", err), requestID, session)
 		return
 	}
 
@@ -1114,8 +1112,6 @@ func (s *SSEServer) sendSuccessResponse(requestID interface{}, result interface{
 		// Response queued successfully.
 	case <-session.done:
 		s.logger.Debugf("Session closed, cannot send response: %s", session.sessionID)
-	default:
-		s.logger.Errorf("Failed to queue response: event queue full for session %s", session.sessionID)
 	}
 }
 
